@@ -43,12 +43,14 @@ func mkFreeIt(proto string, limit, pre, n, iters int) string {
 func genStress(tier string, emit func(string)) {
 	iters := 3000
 	if tier == "thorough" {
-		iters = 30000
+		iters = 12000
 	}
 	for _, proto := range []string{"map", "mapu", "tun", "conn"} {
 		for _, limit := range []int{1, 3} {
 			it := iters
 			if proto == "tun" || proto == "conn" {
+				it = iters / 6
+			} else if limit > 1 {
 				it = iters / 3
 			}
 			emit(mkFreeIt(proto, limit, limit-1, 8, it))
@@ -71,7 +73,7 @@ func admitSteps(proto string, occ int) int {
 	return 1
 }
 
-var zu = map[string]bool{"conn": true, "ctrl": true, "tun": true, "map": true, "mapu": true, "code": false, "mapq": false}
+var zu = map[string]bool{"conn": true, "ctrl": true, "ctrlx": true, "tun": true, "map": true, "mapu": true, "code": false, "mapq": false}
 
 // every sequence over {0..n-1} of the given length
 func allSchedules(n, length int, f func([]int)) {
@@ -163,11 +165,13 @@ func genExhaustive(tier string, emit func(string)) {
 							stride := 1
 							switch {
 							case proto == "code" && tier == "quick":
-								stride = 61
+								stride = 293
 							case proto == "code":
-								stride = 3
+								stride = 23
 							case tier == "quick" && n == 3:
-								stride = 7
+								stride = 23
+							case n == 3:
+								stride = 3 // the racer scenarios below enumerate 3 requests in full
 							}
 							if cnt%stride != 1%stride {
 								return
@@ -201,14 +205,246 @@ func genExhaustive(tier string, emit func(string)) {
 	}
 }
 
+// A2: N >= 3 racers at occupancy limit-2 and limit-1 (distinct codes; same client, and one request
+// of another client mixed in).  With three requests one can hold the critical section, one can wait
+// for it and one can arrive after the hand-over; two racers never show that.
+func genRacers(tier string, emit func(string)) {
+	withDrain := func(n, steps int, s []int) []int {
+		out := append([]int(nil), s...)
+		for r := 0; r < steps; r++ {
+			for t := 0; t < n; t++ {
+				out = append(out, t)
+			}
+		}
+		return out
+	}
+	type cfg struct{ limit, pre int }
+	cfgs := []cfg{{2, 0}, {2, 1}, {3, 1}, {3, 2}, {1, 0}}
+	// quotas on mappings: 3 steps per request, every interleaving of 3 requests
+	for ci, c := range cfgs {
+		for _, ops := range [][]string{{"a", "a", "a"}, {"a", "a", "o"}, {"a", "o", "a"}} {
+			stride := 1
+			if tier == "quick" {
+				switch {
+				case ci == 0 && ops[1] == "a" && ops[2] == "a":
+					stride = 1 // occupancy limit-2, three requests of one client: every interleaving
+				case ci == 1 && ops[1] == "a" && ops[2] == "a":
+					stride = 5
+				default:
+					stride = 23
+				}
+			} else if ops[1] == "o" || ops[2] == "o" {
+				stride = 3
+			}
+			thr := []thrSpec{{0, ops[0]}, {0, ops[1]}, {0, ops[2]}}
+			cnt := 0
+			allInterleavings(3, 3, func(s []int) {
+				cnt++
+				if cnt%stride != 1%stride {
+					return
+				}
+				emit(mkCase("mapq", c.limit, c.pre, thr, withDrain(3, 3, s)))
+			})
+		}
+	}
+	// 4 requests (3 of the client + 1 other, and 4 of the client): sampled enumeration
+	for _, c := range cfgs[:4] {
+		for _, last := range []string{"a", "o"} {
+			stride := 801
+			if tier == "quick" {
+				stride = 4001
+			}
+			thr := []thrSpec{{0, "a"}, {0, "a"}, {0, "a"}, {0, last}}
+			cnt := 0
+			allInterleavings(4, 3, func(s []int) {
+				cnt++
+				if cnt%stride != 1 {
+					return
+				}
+				emit(mkCase("mapq", c.limit, c.pre, thr, withDrain(4, 3, s)))
+			})
+		}
+	}
+	// the other admission protocols: 3 and 4 racers, every interleaving
+	for _, proto := range []string{"conn", "ctrl", "tun", "map", "mapu"} {
+		for _, c := range cfgs[:4] {
+			for n := 3; n <= 4; n++ {
+				steps := admitSteps(proto, 0)
+				stride := 1
+				if proto == "conn" && n == 4 && tier == "quick" {
+					stride = 7
+				}
+				thr := make([]thrSpec, n)
+				for i := range thr {
+					thr[i] = thrSpec{0, "a"}
+				}
+				cnt := 0
+				allInterleavings(n, steps, func(s []int) {
+					cnt++
+					if cnt%stride != 1%stride {
+						return
+					}
+					emit(mkCase(proto, c.limit, c.pre, thr, s))
+				})
+			}
+		}
+	}
+	// free-running: 3, 4 and 8 requests at limit-2 and limit-1, repeated on fresh state
+	iters := 45
+	if tier == "thorough" {
+		iters = 600
+	}
+	for _, proto := range []string{"conn", "tun", "map", "mapu", "code", "mapq"} {
+		for _, n := range []int{3, 4, 8} {
+			for _, c := range []cfg{{3, 1}, {2, 0}, {2, 1}} {
+				it := iters
+				if proto == "code" || proto == "mapq" {
+					it = iters / 3
+				}
+				emit(mkFreeIt(proto, c.limit, c.pre, n, it))
+			}
+		}
+	}
+}
+
+// A3: ClientRegistry.Register with the victim's Close() as a gate: (A inside Close) x (B complete |
+// B queued | B inside its own Close), N in {2,3}, caps 1, 2, 5, occupancy cap-1 and cap, one and two
+// registrations per thread, every interleaving.
+func genCtrlX(tier string, emit func(string)) {
+	for _, limit := range []int{1, 2, 5, 0} {
+		pres := []int{limit - 1, limit}
+		if limit == 0 {
+			pres = []int{0, 3}
+		}
+		for _, pre := range pres {
+			for _, n := range []int{2, 3} {
+				for _, ops := range []string{"a", "aa"} {
+					steps := 2 * len(ops)
+					if n == 3 && len(ops) == 2 && tier == "quick" {
+						continue
+					}
+					thr := make([]thrSpec, n)
+					for i := range thr {
+						thr[i] = thrSpec{0, ops}
+					}
+					stride := 1
+					if n == 3 && len(ops) == 2 {
+						stride = 151
+					}
+					cnt := 0
+					allInterleavings(n, steps, func(s []int) {
+						cnt++
+						if cnt%stride != 1%stride {
+							return
+						}
+						// waiting and the entry step after a hand-over take extra schedule slots: drain
+						out := append([]int(nil), s...)
+						for r := 0; r < 3*len(ops)+1; r++ {
+							for t := 0; t < n; t++ {
+								out = append(out, t)
+							}
+						}
+						emit(mkCase("ctrlx", limit, pre, thr, out))
+					})
+				}
+			}
+		}
+	}
+}
+
+// A4: the slot across the life of its tunnel — close events interleaved with the steps of
+// handleConnection, in particular a close between RegisterTunnel and Start, followed by limit+1 openings.
+func mkSlot(limit int, toks []string) string {
+	return fmt.Sprintf("slot lim %d sch %d %s", limit, len(toks), strings.Join(toks, " "))
+}
+
+func genSlot(r *common.Rand, tier string, emit func(string)) {
+	// every schedule over {s0, s1, c0, c1} of the given length at limit 1 (and 2 connections at limit 2)
+	length := 6
+	if tier == "thorough" {
+		length = 7
+	}
+	alpha := []string{"s0", "s1", "c0", "c1"}
+	allSchedules(len(alpha), length, func(s []int) {
+		toks := make([]string, len(s))
+		for i, x := range s {
+			toks[i] = alpha[x]
+		}
+		emit(mkSlot(1, toks))
+	})
+	// histories: k connections whose tunnel is closed at position p of their life (0 = before the slot is
+	// taken, 1 = before RegisterTunnel, 2 = in the window before Start, 3 = after Start), then limit+1
+	// new connections are opened completely, round-robin or one after the other
+	for _, limit := range []int{1, 2, 3} {
+		for k := 1; k <= 2; k++ {
+			for p := 0; p <= 3; p++ {
+				for _, rr := range []bool{false, true} {
+					var toks []string
+					for j := 0; j < k; j++ {
+						for st := 0; st < 3; st++ {
+							if st == p {
+								toks = append(toks, fmt.Sprintf("c%d", j))
+							}
+							toks = append(toks, fmt.Sprintf("s%d", j))
+						}
+						if p == 3 {
+							toks = append(toks, fmt.Sprintf("c%d", j))
+						}
+					}
+					m := limit + 1
+					if rr {
+						for st := 0; st < 3; st++ {
+							for j := 0; j < m; j++ {
+								toks = append(toks, fmt.Sprintf("s%d", k+j))
+							}
+						}
+					} else {
+						for j := 0; j < m; j++ {
+							for st := 0; st < 3; st++ {
+								toks = append(toks, fmt.Sprintf("s%d", k+j))
+							}
+						}
+					}
+					emit(mkSlot(limit, toks))
+				}
+			}
+		}
+	}
+	// random: steps and closes of up to limit+3 connections
+	count := 1500
+	if tier == "thorough" {
+		count = 15000
+	}
+	for i := 0; i < count; i++ {
+		limit := r.Intn(4)
+		n := 2 + r.Intn(limit+2)
+		ln := 6 + r.Intn(6*n)
+		toks := make([]string, ln)
+		for j := range toks {
+			c := r.Intn(n)
+			if r.Intn(10) < 3 {
+				toks[j] = fmt.Sprintf("c%d", c)
+			} else {
+				toks[j] = fmt.Sprintf("s%d", c)
+			}
+		}
+		emit(mkSlot(limit, toks))
+	}
+}
+
 // A': random interleavings of N racing admissions at the boundary (scopes too large to enumerate).
 func genRandomInterleavings(r *common.Rand, count int, emit func(string)) {
 	for i := 0; i < count; i++ {
 		proto := common.Pick(r, []string{"code", "code", "mapq", "conn"})
 		limit := 1 + r.Intn(4)
 		pre := limit - 1
-		if r.Intn(5) == 0 {
+		switch r.Intn(5) {
+		case 0:
 			pre = limit
+		case 1, 2:
+			if limit >= 2 {
+				pre = limit - 2
+			}
 		}
 		n := 3 + r.Intn(3)
 		steps := admitSteps(proto, pre+n)
@@ -216,6 +452,9 @@ func genRandomInterleavings(r *common.Rand, count int, emit func(string)) {
 		left := make([]int, n)
 		for t := range thr {
 			thr[t] = thrSpec{0, "a"}
+			if (proto == "code" || proto == "mapq") && r.Intn(5) == 0 {
+				thr[t] = thrSpec{0, "o"} // a request of another client through the same service
+			}
 			left[t] = steps
 		}
 		var sched []int
@@ -273,9 +512,12 @@ func genRandom(r *common.Rand, count int, emit func(string)) {
 			ops := ""
 			for j := 0; j < nops; j++ {
 				// quota protocols: releases are not interleaved with the storage reads of a count (see assumptions)
-				if j > 0 && r.Intn(3) == 0 && proto != "code" && proto != "mapq" {
+				switch {
+				case j > 0 && r.Intn(3) == 0 && proto != "code" && proto != "mapq":
 					ops += "r"
-				} else {
+				case (proto == "code" || proto == "mapq") && r.Intn(6) == 0:
+					ops += "o"
+				default:
 					ops += "a"
 				}
 			}
@@ -331,15 +573,18 @@ func genMultiNode(emit func(string)) {
 func generate(r *common.Rand, tier string, emit func(string)) {
 	emit("caps")
 	genExhaustive(tier, emit)
+	genRacers(tier, emit)
+	genCtrlX(tier, emit)
+	genSlot(r, tier, emit)
 	genMultiNode(emit)
 	genStress(tier, emit)
 	if tier == "thorough" {
 		genRandomInterleavings(r, 3000, emit)
-		genRandom(r, 20000, emit)
+		genRandom(r, 9000, emit)
 		genFree(r, 150, emit)
 	} else {
 		genRandomInterleavings(r, 300, emit)
-		genRandom(r, 2500, emit)
+		genRandom(r, 2000, emit)
 		genFree(r, 25, emit)
 	}
 }
